@@ -178,6 +178,171 @@ fn run_single<T: DeserializeOwned + Debug>(entry: Entry, bytes: &[u8], opts: &Op
     lab::single::<T>(entry, bytes, &opts.to_options(), script)
 }
 
+// ------------------------------------------------------------------------------------------------
+// Validating peers (garde / validator): the same stream through the `_valid` / `_validate` batch
+// and iterator entry points is the plain result with validation applied to each document.
+
+type Item = Result<String, (String, u64, u64)>;
+
+fn key_of(e: &serde_saphyr::Error) -> (String, u64, u64) {
+    let i = lab::err_info(e);
+    (i.kind, i.line, i.col)
+}
+
+fn short_items(v: &[Item]) -> String {
+    v.iter()
+        .map(|i| match i {
+            Ok(s) => format!("ok:{s}"),
+            Err((k, l, c)) => format!("err:{k}@{l}:{c}"),
+        })
+        .collect::<Vec<_>>()
+        .join(", ")
+}
+
+fn drive<I: Iterator<Item = Result<VCfg, serde_saphyr::Error>>>(mut it: I, max_calls: usize) -> (Vec<Result<VCfg, serde_saphyr::Error>>, bool) {
+    let mut v = Vec::new();
+    for _ in 0..max_calls {
+        match it.next() {
+            Some(x) => v.push(x),
+            None => return (v, true),
+        }
+    }
+    (v, false)
+}
+
+/// (clause, detail, chunking) for every disagreement between a validating entry point and the plain one
+fn validating_peers(c: &StreamCase, bytes: &[u8], st: &mut Stats) -> Vec<(String, String, Option<Chunking>)> {
+    use garde::Validate as _;
+    let mut out = Vec::new();
+    let Ok(text) = std::str::from_utf8(bytes) else { return out };
+    let o = || c.opts.to_options();
+    let garde_ok = |v: &VCfg| v.validate().is_ok();
+    let validator_ok = |v: &VCfg| validator::Validate::validate(v).is_ok();
+    // ---- batch ----
+    let plain = match guard(|| serde_saphyr::from_multiple_with_options::<VCfg>(text, o())) {
+        Ok(r) => r,
+        Err(_) => {
+            st.bump("skipped.abnormal(C01)");
+            return out;
+        }
+    };
+    type BatchFn<'x> = Box<dyn Fn() -> Result<Vec<VCfg>, serde_saphyr::Error> + 'x>;
+    let batches: Vec<(&str, bool, BatchFn)> = vec![
+        ("from_multiple_with_options_valid", true, Box::new(|| serde_saphyr::from_multiple_with_options_valid::<VCfg>(text, o()))),
+        ("from_slice_multiple_with_options_valid", true, Box::new(|| serde_saphyr::from_slice_multiple_with_options_valid::<VCfg>(bytes, o()))),
+        ("from_multiple_with_options_validate", false, Box::new(|| serde_saphyr::from_multiple_with_options_validate::<VCfg>(text, o()))),
+        ("from_slice_multiple_with_options_validate", false, Box::new(|| serde_saphyr::from_slice_multiple_with_options_validate::<VCfg>(bytes, o()))),
+    ];
+    for (name, is_garde, f) in &batches {
+        let got = match guard(|| f()) {
+            Ok(r) => r,
+            Err(_) => {
+                st.bump("skipped.abnormal(C01)");
+                continue;
+            }
+        };
+        st.evals += 1;
+        st.bump("validating.batch_compared");
+        let problem = match (&plain, &got) {
+            (Err(e), Err(g)) => {
+                if key_of(e) != key_of(g) {
+                    Some(format!("plain fails with {:?}, {name} with {:?}", key_of(e), key_of(g)))
+                } else {
+                    None
+                }
+            }
+            (Err(e), Ok(v)) => Some(format!("plain fails with {:?}, {name} returns {} values", key_of(e), v.len())),
+            (Ok(pv), got) => {
+                let all_valid = pv.iter().all(|v| if *is_garde { garde_ok(v) } else { validator_ok(v) });
+                match got {
+                    Ok(gv) if all_valid => {
+                        if gv != pv {
+                            Some(format!("plain gives {pv:?}, {name} gives {gv:?}"))
+                        } else {
+                            None
+                        }
+                    }
+                    Ok(gv) => Some(format!("a document fails validation, yet {name} returns Ok({gv:?})")),
+                    Err(g) if all_valid => Some(format!("every document deserializes and validates, {name} fails with {:?}", key_of(g))),
+                    Err(g) => {
+                        if key_of(g).0.starts_with("Validat") {
+                            None
+                        } else {
+                            Some(format!("a document fails validation, {name} reports {:?} instead", key_of(g)))
+                        }
+                    }
+                }
+            }
+        };
+        if let Some(p) = problem {
+            out.push(("validating-batch-differs".to_string(), p, None));
+        }
+    }
+    // ---- iterators ----
+    let max_calls = c.docs.len() + 2;
+    for ch in c.chunkings.iter().take(2) {
+        let script = ReaderScript {
+            chunking: Some(ch.clone()),
+            ..Default::default()
+        };
+        let mut rd = SimReader::new(bytes, script.clone());
+        let Ok((plain_items, plain_done)) = guard(|| drive(serde_saphyr::read_with_options::<_, VCfg>(&mut rd, o()), max_calls)) else {
+            st.bump("skipped.abnormal(C01)");
+            continue;
+        };
+        for is_garde in [true, false] {
+            let name = if is_garde { "read_with_options_valid" } else { "read_with_options_validate" };
+            let mut rd = SimReader::new(bytes, script.clone());
+            let r = if is_garde {
+                guard(|| drive(serde_saphyr::read_with_options_valid::<_, VCfg>(&mut rd, o()), max_calls))
+            } else {
+                guard(|| drive(serde_saphyr::read_with_options_validate::<_, VCfg>(&mut rd, o()), max_calls))
+            };
+            let Ok((items, done)) = r else {
+                st.bump("skipped.abnormal(C01)");
+                continue;
+            };
+            st.evals += 1;
+            st.bump("validating.iterator_compared");
+            let want: Vec<Item> = plain_items
+                .iter()
+                .map(|r| match r {
+                    Ok(v) => {
+                        if if is_garde { garde_ok(v) } else { validator_ok(v) } {
+                            Ok(format!("{v:?}"))
+                        } else {
+                            Err((if is_garde { "ValidationError" } else { "ValidatorError" }.to_string(), 0, 0))
+                        }
+                    }
+                    Err(e) => Err(key_of(e)),
+                })
+                .collect();
+            let got: Vec<Item> = items
+                .iter()
+                .map(|r| match r {
+                    Ok(v) => Ok(format!("{v:?}")),
+                    Err(e) => Err(key_of(e)),
+                })
+                .collect();
+            if want != got || done != plain_done {
+                out.push((
+                    "validating-iterator-differs".to_string(),
+                    format!(
+                        "{name} under {}: items [{}]{}, read_with_options with validation applied gives [{}]{}",
+                        short_ch(ch),
+                        short_items(&got),
+                        if done { "" } else { " (no None)" },
+                        short_items(&want),
+                        if plain_done { "" } else { " (no None)" }
+                    ),
+                    Some(ch.clone()),
+                ));
+            }
+        }
+    }
+    out
+}
+
 pub fn exec(c: &StreamCase, st: &mut Stats) -> Vec<Viol> {
     let mut out = Vec::new();
     let text = build_stream(c);
@@ -248,12 +413,25 @@ pub fn exec(c: &StreamCase, st: &mut Stats) -> Vec<Viol> {
                 format!("[{}] document {i} fails alone, yet from_multiple returns Ok({v:?})", describe()),
                 None,
             )),
+            // the batch function enforces the budget over the whole stream (EnforcingPolicy::AllContent,
+            // by design; its exactness is C07's business): several documents that are each within a
+            // limit may exceed it together
+            (Outcome::Err(e), None) if e.kind == "Budget" && c.docs.len() > 1 => {
+                st.bump("batch.budget_over_all_content(C07)");
+            }
             (Outcome::Err(e), None) => out.push(mk(
                 "batch-rejects-good-stream",
                 format!("[{}] every document is fine alone, from_multiple fails with {}@{}:{}", describe(), e.kind, e.line, e.col),
                 None,
             )),
             _ => {}
+        }
+    }
+
+    // ---- validating peers of the batch and iterator entry points ----
+    if c.target == Target::Cfg {
+        for (clause, detail, ch) in validating_peers(c, bytes, st) {
+            out.push(mk(&clause, format!("[{}] {detail}", describe()), ch.as_ref()));
         }
     }
 
@@ -479,6 +657,7 @@ pub fn kinds_for(target: Target) -> Vec<DocSpec> {
             d("missing", "name: only\n"),
             d("type-scalar-root", "just a scalar\n"),
             d("anchor-then-type-error", "name: &x ank\nn: notanumber\n"),
+            d("fails-validation", "name: ''\nn: 5000\n"),
         ],
         Target::VecI => vec![
             d("valid-a", "- 1\n- 2\n"),
@@ -489,6 +668,7 @@ pub fn kinds_for(target: Target) -> Vec<DocSpec> {
             d("type-late", "- 1\n- 2\n- [deep, {a: b}]\n"),
             d("type-map-root", "a: 1\nb: [2, 3]\n"),
             d("anchor-then-type-error", "- &x 7\n- oops\n"),
+            d("many-aliases", &format!("- &x 7\n{}", "- *x\n".repeat(60))),
         ],
         Target::Tup => vec![
             d("valid-a", "[1, 2]\n"),
@@ -547,6 +727,9 @@ pub fn kinds_for(target: Target) -> Vec<DocSpec> {
             d("duplicate-key", "a: 1\na: 2\n"),
             d("recursive-alias", "a: &r [*r]\n"),
             d("anchor-then-duplicate-key", "p: &x [1]\nq: 1\nq: 2\n"),
+            // 60 aliases of one anchor: under every per-document limit (the alias/anchor ratio is only
+            // looked at from 100 aliases on), two such documents together are over it
+            d("many-aliases", &format!("p: &x 1\nq: [{}]\n", vec!["*x"; 60].join(", "))),
         ],
     };
     v.extend(specific);
